@@ -32,7 +32,7 @@ E1, three complete enumerations on the real TokenParser / StringArgs / ArgvArgs:
     both quote kinds, non-ASCII) are expressible and are demanded to round-trip.
 
 (c) equivalence: generated command lines (all sequences up to length 3 (quick) / 4 (thorough) over a pool
-    of 17 tokens: options in every spelling, values with blanks/quotes/backslashes, '', '--', command
+    of 18 tokens: options in every spelling (one that takes an optional value among them), values with blanks/quotes/backslashes, '', '--', command
     names, an unknown option, -h) against three small formats, strict and lenient, three quoting styles:
     StringArgs(quoted line) vs ArgvArgs(["prog"] + tokens) must give the identical outcome (all Args views,
     or exception class + message) through DefaultArgsParser, the identical resolution (command + views,
@@ -76,7 +76,7 @@ BOUNDS_B = {
     "thorough": [(4, 1, "full"), (2, 2, "full"), (1, 5, "full"), (2, 3, "full"), (3, 2, "full")],
 }
 POOL_C = ["a b", "it's", 'q"x', "", "x=y", "--flag", "-f", "-vX Y", "--val=a b", "--val", "--", "é\t", "b\\\\",
-          "--nope", "srv", "7", "-h"]
+          "--nope", "srv", "7", "-h", "--name"]
 BLOCK = 1024          # items per watchdog period
 BLOCK_BUDGET = 10.0   # seconds for one block (normal: ~0.01 s for strings, ~1 s for the command lines of part (c))
 SINGLE_BUDGET = 3.0   # seconds for one item when confirming (normal: ~10 us / ~1 ms)
@@ -364,7 +364,7 @@ def world_c():
         g1 = ArgsFormat([Option("flag", "f", Option.NO_VALUE), Option("val", "v", Option.REQUIRED_VALUE),
                          Argument("first", Argument.OPTIONAL), Argument("rest", Argument.MULTI_VALUED)])
         g2 = ArgsFormat([CommandName("srv", ["server"]), Option("name", "n", Option.OPTIONAL_VALUE, None, "dflt"),
-                         Option("num", None, Option.REQUIRED_VALUE | Option.INTEGER),
+                         Option("num", None, Option.REQUIRED_VALUE | Option.INTEGER), Option("flag", "f", Option.NO_VALUE),
                          Argument("target", Argument.REQUIRED), Argument("tail", Argument.MULTI_VALUED)])
         g3 = ArgsFormat([Option("val", "v", Option.REQUIRED_VALUE | Option.MULTI_VALUED), Option("flag", "f", Option.NO_VALUE)])
         cfg = DefaultApplicationConfig("app", "1.0")
@@ -440,6 +440,13 @@ def check_c(case):
             if o1 != o2:
                 return [report.viol("equiv:parse", "parse(%s, lenient=%s) differs between the command string and the argv list" % (name, lenient),
                                     dict(case, format=name, lenient=lenient), o2, o1)]
+            # ... and "only tokens before the first '--' count as option tokens" for the parser too: the options a lenient parse
+            # reports are those of the line cut at its first '--'
+            if lenient and "--" in tokens and isinstance(o2, list):
+                o4 = _outcome(lambda: views(DefaultArgsParser().parse(ArgvArgs(["prog"] + tokens[:tokens.index("--")]), fmt, True)))
+                if isinstance(o4, list) and o4[2] != o2[2]:
+                    return [report.viol("separator:options-from-behind", "parse(%s, lenient): the options set differ from those of the line cut at "
+                                        "its first '--'" % name, dict(case, format=name, lenient=True), o4[2], o2[2])]
             # ... also when the parser object is not new: one parser that has already parsed a line with a `--` separator
             # (the parser keeps per-parse scratch state on itself) must treat the string like a fresh parser treats the list
             used = DefaultArgsParser()
@@ -663,7 +670,7 @@ def main():
     elif skipped:
         rep.set("stopped", "violations were found before the larger boxes of part (b) were reached; those were not run")
     rep.set("rule", "(a) all strings <= %d over 7 characters; (b) all expressible token lists in the boxes x all quote styles per token x 16 layouts; "
-                    "(c) all lines <= %d tokens over a 17-token pool x 3 quoting styles (x 3 formats x strict/lenient + resolution).  non-trivial = "
+                    "(c) all lines <= %d tokens over an 18-token pool x 3 quoting styles (x 3 formats x strict/lenient + resolution).  non-trivial = "
                     "(a) strings containing a quote or a backslash, (b) command strings with at least one token that needs quotes (empty, whitespace, "
                     "quote or backslash inside), (c) lines with at least one such token and at least one token starting with '-'" % (la, lc))
     rep.sample({"part": "a", "string": "a\\"})
